@@ -484,6 +484,8 @@ package parse
 //@ pred uLE24(r, p) := content(r.f, p+2)*65536 + content(r.f, p+1)*256 + content(r.f, p)
 //@ pred uBE32(r, p) := content(r.f, p)*16777216 + content(r.f, p+1)*65536 + content(r.f, p+2)*256 + content(r.f, p+3)
 //@ pred uLE32(r, p) := content(r.f, p+3)*16777216 + content(r.f, p+2)*65536 + content(r.f, p+1)*256 + content(r.f, p)
+//@ pred uBE64(r, p) := uBE32(r, p)*4294967296 + uBE32(r, p+4)
+//@ pred uLE64(r, p) := uLE32(r, p+4)*4294967296 + uLE32(r, p)
 //@ pred sx(u, half) := ite(u < half, u, u - 2*half)
 //@ func BinaryReader.ReadUint16
 //@   preserves[S] brInv(r)
@@ -531,6 +533,8 @@ package parse
 //@ func BinaryReader.ReadInt64
 //@   preserves[S] brInv(r)
 //@   requires[S] smallInt(r.pos)
+//@   ensures[F,C19] @signed-big: r.err == nil && r.ByteOrder != binary.LittleEndian ==> result == sx(uBE64(r, old(r.pos)), 9223372036854775808)
+//@   ensures[F,C19] @signed-little: r.err == nil && r.ByteOrder == binary.LittleEndian ==> result == sx(uLE64(r, old(r.pos)), 9223372036854775808)
 //@ func BinaryReader.ReadString
 //@   preserves[S] brInv(r)
 //@   requires[S] smallInt(r.pos)
